@@ -11,6 +11,7 @@ out = {}
 callers = {}
 adts = {}
 free_fns = {}
+sigs = {}
 for cfg in ("cfgA", "cfgB", "cfgC", "cfgE"):
     d = gen.generate(cfg, "/repo")
     for f in sorted(glob.glob(os.path.join(d, "*.json"))):
@@ -27,6 +28,9 @@ for cfg in ("cfgA", "cfgB", "cfgC", "cfgE"):
                 s.add(strip_generics(b["path"]))
         adts.setdefault(name, set()).update(a["path"] for a in j["adts"] if a["path"].startswith(name + "::"))
         free_fns.setdefault(name, set()).update(strip_generics(b["path"]) for b in j["bodies"] if b["kind"] == "Fn")
+        for b in j["bodies"]:
+            if b["kind"] in ("Fn", "AssocFn") and b.get("sig"):
+                sigs.setdefault(name, {})[strip_generics(b["path"])] = "(%s) -> %s" % (", ".join(b["sig"]["inputs"]), b["sig"]["output"])
         keys = {strip_generics(b["path"]) for b in j["bodies"] if b["kind"] in ("Fn", "AssocFn")}
         cm = callers.setdefault(name, {})
         for b in j["bodies"]:
@@ -40,7 +44,8 @@ for cfg in ("cfgA", "cfgB", "cfgC", "cfgE"):
                         if ck in keys and ck != owner:
                             cm.setdefault(ck, set()).add(owner)
 json.dump({k: sorted(v) for k, v in sorted(out.items())}, open(os.path.join(V, "rules", "known_functions.json"), "w"), indent=0)
-json.dump({"adts": {k: sorted(v) for k, v in sorted(adts.items())}, "free_fns": {k: sorted(v) for k, v in sorted(free_fns.items())}},
+json.dump({"adts": {k: sorted(v) for k, v in sorted(adts.items())}, "free_fns": {k: sorted(v) for k, v in sorted(free_fns.items())},
+           "sigs": {k: dict(sorted(v.items())) for k, v in sorted(sigs.items())}},
           open(os.path.join(V, "rules", "known_items.json"), "w"), indent=0)
 json.dump({c: {k: sorted(v) for k, v in sorted(m.items())} for c, m in sorted(callers.items())},
           open(os.path.join(V, "rules", "known_callers.json"), "w"), indent=0)
